@@ -193,6 +193,13 @@ func VerifEventTotal() int64 {
 	return n
 }
 
+// VerifBorrowResult hands out a Result taken from the pool of results, exactly as the validators get theirs
+// (flagged to go back to the pool when it is merged into another result). It lets the harness feed pooled
+// operands to the public methods of Result; the caller gives up the result by merging it.
+func VerifBorrowResult() *Result {
+	return pools.poolOfResults.BorrowResult()
+}
+
 // VerifPoolTypes lists the names of the pooled types, in a fixed order.
 func VerifPoolTypes() []string {
 	out := make([]string, len(verifTypeNames))
